@@ -64,6 +64,16 @@ func c14Child(args []string) {
 				fmt.Fprintf(out, "ack %d %s\n", id, off)
 				if i%2 == 1 && writers == 1 {
 					pos, _ := strconv.Atoi(string(off))
+					if i%4 == 3 { // first an attempt whose context is already cancelled: it fails without effect, or succeeds
+						fmt.Fprintf(out, "savestart %d\n", pos)
+						cctx, cancel := context.WithCancel(context.Background())
+						cancel()
+						if err := s.SaveOffset(cctx, "sub", off); err != nil {
+							fmt.Fprintf(out, "saverefused %d\n", pos)
+						} else {
+							fmt.Fprintf(out, "saveack %d\n", pos)
+						}
+					}
 					fmt.Fprintf(out, "savestart %d\n", pos)
 					if err := s.SaveOffset(context.Background(), "sub", off); err != nil {
 						fmt.Fprintf(out, "error %v\n", err)
@@ -169,6 +179,9 @@ func killHistory(r *core.Run, rnd *rand.Rand, idx int) ([][]byte, string, error)
 			case "saveack":
 				p, _ := strconv.Atoi(f[1])
 				emit(map[string]any{"e": "saveack", "pos": p})
+			case "saverefused":
+				p, _ := strconv.Atoi(f[1])
+				emit(map[string]any{"e": "saverefused", "pos": p})
 			case "error":
 				cmd.Process.Kill()
 				cmd.Wait()
@@ -243,7 +256,7 @@ func c14(r *core.Run) {
 	r.MustHold(core.TLCOpts{Module: "Durable", Timeout: 10 * time.Minute})
 	rnd := rand.New(rand.NewPCG(uint64(r.Seed), 1414))
 	var segs []core.Segment
-	for i := 0; i < r.Pick(40, 600); i++ {
+	for i := 0; i < r.Pick(100, 1500); i++ {
 		lines, desc, err := killHistory(r, rnd, i)
 		if err != nil {
 			r.Infra("kill history: %v", err)
